@@ -171,11 +171,6 @@ Fixpoint acked_before_next (t : list tev) (rest : list tev) (owed : list (N * N)
   | _ :: r => acked_before_next t r owed
   end.
 
-Definition c07_ok (h : histcase) : bool :=
-  let t := trace_of h in
-  no_panic t && fold_trace (rx_step t) (mkRx [] [] false) [] t && acked_before_next t t [].
-Definition c04_ok (h : histcase) : bool :=
-  let t := trace_of h in c07_ok h && forallb (answered t) (conns t).
 
 (* ------------------------------------------------------------------ *)
 (* C01 / C03 / C17 / C13: outbound transfers and the Persistence        *)
@@ -240,10 +235,159 @@ Definition no_publish_after_pubrec (t : list tev) : bool :=
                       end
                     | _ => true end) (out_packets t).
 
+
+(* ------------------------------------------------------------------ *)
+(* Good suffix (C01/C03/C11: "no fault stops it").  The harness may end a history with a
+   marker call (a quit for a request number that does not exist, a no-op) after which the
+   environment is benign: dials succeed, no Persistence or connection fault is injected, the
+   scripted broker acknowledges everything it receives, and ReadSlices is called six more times.
+   By then every accepted transfer must have completed and every waiting request returned.
+   Not judged when the Persistence was rewritten from outside or an adoption warned (the
+   pending set is then not the accepted set), nor after Close/Disconnect. *)
+Definition settle_marker : N := 1000000.
+Definition is_marker (e : tev) : bool :=
+  match e with TRet _ (OpQuit r) _ _ _ _ => r =? settle_marker | _ => false end.
+(* the Persistence was rewritten from outside and not adopted cleanly afterwards, or an
+   adoption warned or failed: the pending set is then not the set the client accepted *)
+Fixpoint rewritten_from (t : list tev) (dirty : bool) : bool :=
+  match t with
+  | [] => dirty
+  | TStore _ _ :: r => rewritten_from r true
+  | TRet _ (OpAdopt _ _) (RetAdopt w e) _ _ _ :: r =>
+    if (w =? 0) && (e =? 0) then rewritten_from r false else true
+  | _ :: r => rewritten_from r dirty
+  end.
+Definition rewritten (t : list tev) : bool := rewritten_from t false.
+Definition tampered (t : list tev) : bool :=
+  rewritten t || existsb (fun e => match e with
+                                   | TRet _ OpClose _ _ _ _ | TRet _ OpDisconnect _ _ _ _ => true
+                                   | _ => false end) t.
+(* the part of the trace that belongs to the last process (after the last successful adoption) *)
+Fixpoint epoch_tail (t acc : list tev) : list tev :=
+  match t with
+  | [] => acc
+  | TRet _ (OpAdopt _ _) (RetAdopt _ 0) _ _ _ :: r => epoch_tail r r
+  | _ :: r => epoch_tail r acc
+  end.
+Definition exch_opened (t : list tev) : list N :=
+  flat_map (fun e => match e with TRet _ (OpPubP _ _ _ _) (RetExch x) _ _ _ => [x] | _ => [] end) t.
+Definition exch_closed (t : list tev) : list N :=
+  flat_map (fun e => match e with
+                     | TRet _ _ _ _ xev _ => flat_map (fun xe => match snd xe with None => [fst xe] | Some _ => [] end) xev
+                     | _ => [] end) t.
+Definition settled_exchanges (t : list tev) : bool :=
+  if existsb is_marker t && negb (tampered t) then
+    let ep := epoch_tail t t in
+    forallb (fun x => mem x (exch_closed ep)) (exch_opened ep)
+  else true.
+(* every request seen waiting has returned by the end *)
+Fixpoint parked_rids (t : list tev) (next : N) : list N :=
+  match t with
+  | [] => []
+  | TRet _ o r _ _ _ :: rest =>
+    if match o with OpPublish _ _ _ | OpSub _ _ | OpUnsub _ | OpPing => true | _ => false end then
+      (match r with RetParked => [next] | _ => [] end) ++ parked_rids rest (next + 1)
+    else parked_rids rest next
+  | _ :: rest => parked_rids rest next
+  end.
+Definition done_rids (t : list tev) : list N :=
+  flat_map (fun e => match e with TRet _ _ _ done _ _ => map (fun d => fst (fst d)) done | _ => [] end) t.
+Definition settled_requests (t : list tev) : bool :=
+  if existsb is_marker t && negb (tampered t) then
+    let ep := epoch_tail t t in
+    forallb (fun r => mem r (done_rids ep)) (parked_rids ep 0)
+  else true.
+
+(* C07 "none is returned without eventually being acknowledged": under the good suffix every
+   QoS 1/2 message the last process returned has had its PUBACK/PUBREC written completely *)
+Definition max_call (t : list tev) : N := fold_left (fun a e => N.max a (ev_call e)) t 0.
+Definition settled_acks (t : list tev) : bool :=
+  if existsb is_marker t && negb (tampered t) then
+    let ep := epoch_tail t t in
+    let last := max_call t in
+    forallb (fun e => match e with
+                      | TRet j OpRead (RetMsg topic msg) _ _ _ =>
+                        match find_pub (upto_call j t) topic msg with
+                        | Some (q, Some id) => (q =? 0) || acked_by_call t q id last
+                        | _ => true
+                        end
+                      | _ => true end) ep
+  else true.
+
+Definition c07_ok (h : histcase) : bool :=
+  let t := trace_of h in
+  no_panic t && fold_trace (rx_step t) (mkRx [] [] false) [] t && acked_before_next t t [] && settled_acks t.
+Definition c04_ok (h : histcase) : bool :=
+  let t := trace_of h in c07_ok h && forallb (answered t) (conns t).
+
+(* C01/C02/C05/C18 "pending transfers are retransmitted on every connection, before anything
+   else": when the call that dialed connection c returns with the client online, every genuine
+   record that was in the two publish key spaces at the moment of the dial went out on c in
+   that call, as the PUBLISH resp. PUBREL it holds.  Not judged on rewritten stores. *)
+Fixpoint dial_positions (t : list tev) (pos : nat) (count : N) : list (N * N * nat) :=   (* call, connection, position *)
+  match t with
+  | [] => []
+  | TEv i QDial (ADial true) :: r => (i, count, pos) :: dial_positions r (S pos) (count + 1)
+  | _ :: r => dial_positions r (S pos) count
+  end.
+Definition call_online (t : list tev) (i : N) : bool :=
+  existsb (fun e => match e with TRet j OpRead _ _ _ online => (j =? i) && online | _ => false end) t.
+Definition last_dial_of_call (ds : list (N * N * nat)) (i : N) : option (N * nat) :=
+  fold_left (fun acc d => if fst (fst d) =? i then Some (snd (fst d), snd d) else acc) ds None.
+Definition resend_complete (t : list tev) : bool :=
+  if rewritten t then true else
+  let ds := dial_positions t 0 0 in
+  forallb (fun e => match e with
+    | TRet i OpRead _ _ _ true =>
+      match last_dial_of_call ds i with
+      | Some (c, pos) =>
+        let m0 := store_at t pos in
+        let outs := filter (fun x => (snd x =? i) && (fst (fst (fst x)) =? c)) (out_packets t) in
+        forallb (fun kv =>
+          let k := fst kv in
+          if (in_alo k || in_eo k) && genuine_rec (snd kv) then
+            existsb (fun x => match snd (fst (fst x)) with
+                              | PPublish _ _ _ _ (Some id) _ => is_publish_rec (snd kv) && (id =? k)
+                              | PPubrel id => is_pubrel_rec (snd kv) && (id =? k)
+                              | _ => false end) outs
+          else true) m0
+      | None => true
+      end
+    | _ => true end) t.
+
+(* C01/C14: the exchange channel that closes with the deletion of a record is the one that
+   was handed out by the call which saved that record (an error-returning persisted publish
+   left nothing in the queue that could take another request's confirmation) *)
+Definition saved_key_in_call (t : list tev) (i : N) : option N :=
+  match filter (fun e => match e with
+                         | TEv j (QSave k v) ADone => (j =? i) && (in_alo k || in_eo k) && is_publish_rec v
+                         | _ => false end) t with
+  | TEv _ (QSave k _) _ :: _ => Some k
+  | _ => None
+  end.
+Definition deleted_keys_in_call (t : list tev) (i : N) : list N :=
+  flat_map (fun e => match e with
+                     | TEv j (QDelete k) ADone => if (j =? i) && (in_alo k || in_eo k) then [k] else []
+                     | _ => [] end) t.
+Definition xk_step (t : list tev) (s : list (N * N)) (m : list (N * list N)) (e : tev) : list (N * N) * bool :=
+  match e with
+  | TRet _ (OpAdopt _ _) (RetAdopt _ 0) _ _ _ => ([], true)
+  | TRet i o r _ xev _ =>
+    let s := match o, r with
+             | OpPubP _ _ _ _, RetExch x => match saved_key_in_call t i with Some k => (k, x) :: s | None => s end
+             | _, _ => s end in
+    let closed := flat_map (fun xe => match snd xe with None => [fst xe] | Some _ => [] end) xev in
+    let dels := deleted_keys_in_call t i in
+    let ok := forallb (fun x => existsb (fun kx => (snd kx =? x) && mem (fst kx) dels) s) closed in
+    (filter (fun kx => negb (mem (snd kx) closed)) s, ok)
+  | _ => (s, true)
+  end.
+Definition own_exchange (t : list tev) : bool := rewritten t || fold_trace (xk_step t) [] [] t.
+
 Definition c01_ok (h : histcase) : bool :=
   let t := trace_of h in
   no_panic t && fold_trace (tx_step t) (s_max1 (cfg_of h), s_max2 (cfg_of h)) [] t
-  && no_publish_after_pubrec t.
+  && no_publish_after_pubrec t && settled_exchanges t && resend_complete t && own_exchange t.
 Definition c03_ok := c01_ok.
 
 Definition hist_run (ok : histcase -> bool) (l : list histcase) : list N * list N * list (N * N) :=
@@ -316,7 +460,7 @@ Definition ord_step (o : ord) (m : list (N * list N)) (e : tev) : ord * bool :=
 
 Definition c05_ok (h : histcase) : bool :=
   let t := trace_of h in
-  no_panic t && fold_trace ord_step (mkOrd [] [] [] [] [] [] []) [] t.
+  no_panic t && fold_trace ord_step (mkOrd [] [] [] [] [] [] []) [] t && resend_complete t.
 
 (* ------------------------------------------------------------------ *)
 (* C17 (requests): subscribe/unsubscribe identifiers                    *)
@@ -400,14 +544,18 @@ Fixpoint epoch_start (t : list tev) (c : N) (count start : N) : N :=
   | _ :: r => epoch_start r c count start
   end.
 
+(* CleanSession only until the first connection has been established: an earlier connection whose
+   CONNACK was accepting (for a clean request: session-present must be 0) *)
+Definition want_clean_of (h : histcase) (t : list tev) (c : N) : bool :=
+  let cf := s_cfg (cfg_of h) in
+  let start := epoch_start t c 0 0 in
+  let earlier := existsb (fun c' => (start <=? c') && (c' <? c) && connack_accepts (connack_of t c') (cfg_clean cf)) (conns t) in
+  cfg_clean cf && negb earlier.
+
 Definition conn_setup_ok (h : histcase) (t : list tev) (c : N) : bool :=
   let cf := s_cfg (cfg_of h) in
   let outb := out_bytes c t in
-  (* CleanSession only until the first connection has been established: an earlier connection whose
-     CONNACK was accepting (for a clean request: session-present must be 0) *)
-  let start := epoch_start t c 0 0 in
-  let earlier := existsb (fun c' => (start <=? c') && (c' <? c) && connack_accepts (connack_of t c') (cfg_clean cf)) (conns t) in
-  let want_clean := cfg_clean cf && negb earlier in
+  let want_clean := want_clean_of h t c in
   let cf' := {| cfg_user := cfg_user cf; cfg_pass := cfg_pass cf; cfg_will := cfg_will cf;
                 cfg_keepalive := cfg_keepalive cf; cfg_clean := want_clean |} in
   let expect := connect_packet cf' (cid_of h) in
@@ -456,7 +604,16 @@ Definition cs_step (h : histcase) (t : list tev) (s : cs) (m : list (N * list N)
         end
       | _, _ => true
       end in
-    (s', refused_ok)
+    (* a valid accepting CONNACK (session-present allowed unless this CONNECT asked for a clean
+       session) is not a protocol violation: when nothing but the CONNACK was read from the
+       connection, the call does not end in a protocol reset *)
+    let accept_ok :=
+      match last_conn_in_call t i, r with
+      | Some c, RetErr er =>
+        negb (connack_accepts (connack_of t c) (want_clean_of h t c) && (len (in_bytes c t) =? 4) && has_bit er 16384)
+      | _, _ => true
+      end in
+    (s', refused_ok && accept_ok)
   | TRet i o (RetErr er) _ _ _ =>
     if spawn_op o && cs_down s && negb (cs_closed s) then
       (* after a failed attempt: ErrDown (or a denial / a full slot), never submitted *)
@@ -470,7 +627,8 @@ Definition cs_step (h : histcase) (t : list tev) (s : cs) (m : list (N * list N)
 
 Definition c18_ok (h : histcase) : bool :=
   let t := trace_of h in
-  no_panic t && forallb (conn_setup_ok h t) (conns t) && fold_trace (cs_step h t) (mkCs false false) [] t.
+  no_panic t && forallb (conn_setup_ok h t) (conns t) && fold_trace (cs_step h t) (mkCs false false) [] t
+  && resend_complete t.
 
 Definition c05_run := hist_run c05_ok.
 Definition c17_run := hist_run c17_ok.
@@ -537,8 +695,18 @@ Definition c14_ret (t : list tev) (e : tev) : bool :=
   | _ => true
   end.
 
+(* a persisted publish that returned an error was not enqueued: the level is full exactly when
+   as many records are stored as the limit allows (tx_step's clause for these calls) *)
+Definition pubp_step (t : list tev) (mx : N * N) (m : list (N * list N)) (e : tev) : (N * N) * bool :=
+  match e with
+  | TRet _ (OpPubP _ _ _ _) _ _ _ _ | TRet _ (OpAdopt _ _) _ _ _ _ => tx_step t mx m e
+  | _ => (mx, true)
+  end.
 Definition c14_ok (h : histcase) : bool :=
-  let t := trace_of h in no_panic t && forallb (c14_ret t) t.
+  let t := trace_of h in
+  no_panic t && forallb (c14_ret t) t
+  && (rewritten t || fold_trace (pubp_step t) (s_max1 (cfg_of h), s_max2 (cfg_of h)) [] t)
+  && own_exchange t.
 
 (* ------------------------------------------------------------------ *)
 (* C13: hostile input                                                   *)
@@ -855,7 +1023,7 @@ Definition rq_step (t : list tev) (s : rq11) (m : list (N * list N)) (e : tev) :
 
 Definition c11_ok (h : histcase) : bool :=
   let t := trace_of h in
-  no_panic t && c14_ok h && fold_trace (rq_step t) (mkRq 0 []) [] t.
+  no_panic t && c14_ok h && fold_trace (rq_step t) (mkRq 0 []) [] t && settled_requests t.
 Definition c11_run := hist_run c11_ok.
 Definition all4_ok (h : histcase) : bool := all3_ok h && c10_ok h && c11_ok h && c12_gen true h.
 Definition all4_run := hist_run all4_ok.
